@@ -56,6 +56,8 @@ def numeric(rep, index):
                 # a raise from the post-hoc reference encoding only (n out of encode range): not the writer's
                 continue
             ww, w, n, st, res, enc = val
+            if _replaced(rep, ww, w, inst):
+                continue
             data = ww.data_of(w)
             lo, hi = B.bounds(n)
             if st == "raise":
@@ -98,6 +100,9 @@ def raw_bytes(rep, index):
             rep.ob("C09.B1 add_bytes", inst, False, "raises")
             continue
         ww, w, blob, st, res = val
+        if _replaced(rep, ww, w, inst):
+            rep.count("raw paths")
+            continue
         data = ww.data_of(w)
         app = data.appended()
         ok = st == "ok" and len(app) == 1 and app[0][0] == "abs" and app[0][1] is blob and not data.disturbed() \
@@ -135,6 +140,8 @@ def strings(rep, index):
                 rep.ob("C09.S0 total", inst, False, "unexpected %r" % (val,))
                 continue
             ww, w, s, N, padded, st, res = val
+            if _replaced(rep, ww, w, inst):
+                continue
             data = ww.data_of(w)
             S = s.S
             if st == "raise":
@@ -229,6 +236,8 @@ def histories(rep, index):
                     rep.ob("C09.H0 total", inst, False, "escaped %r" % (val,))
                     continue
                 ww, w, s, st1, st2, n1 = val
+                if _replaced(rep, ww, w, inst):
+                    continue
                 data = ww.data_of(w)
                 later = [e for e in data.events[n1:] if e[0] == "append"]
                 ok = st1 == "ok" and st2 == "ok" and len(later) == 1 and later[0][1][0] == "abs" and later[0][3] is not None
@@ -244,6 +253,15 @@ def histories(rep, index):
                               % (B.norm(Aff.of(val_at) - buf.c), n_enc, want_enc))
                 rep.ob("C09.H1 second-write-of-a-string-is-its-exact-image", inst, ok, detail)
     rep.floor("history paths", 16)
+
+
+def _replaced(rep, ww, w, inst):
+    if ww.replaced(w):
+        rep.ob("C09.A1 writer-keeps-its-own-buffer", inst, False,
+               "the writer replaced its buffer by another object (%r): earlier contents are lost and the caller's object is aliased"
+               % type(ww.data_of(w)).__name__)
+        return True
+    return False
 
 
 def _is_zero(form):
